@@ -390,6 +390,7 @@ fn do_request(env: &WorkerEnv, scn: &Scn, req: &Req, thread: usize, idx: usize, 
                         timeout: Duration::from_secs(20),
                         stdout_to: if req.fs_fault.as_deref() == Some("stdout-dev-full") { full_device(env) } else { None },
                         stdin_file: if req.alias.as_deref() == Some("stdin-redirect") { Some(inp.clone()) } else { None },
+                        stderr_to: None,
                     },
                 );
                 r.class_only = true;
@@ -760,6 +761,7 @@ impl Engine for C07 {
                         timeout: Duration::from_secs(20),
                         stdout_to: None,
                         stdin_file: None,
+                        stderr_to: None,
                     },
                 );
                 res.stats.evaluations += 1;
